@@ -79,6 +79,11 @@ type Case struct {
 	Mut   Mut      `json:"mut"`
 	Extra []string `json:"extra,omitempty"` // additional (unstored) addresses to query, hex
 	Shape string   `json:"shape,omitempty"` // single | trunc | crcfix | multi | crafted | intact
+	// Subsets: additional batched reads (getMany) over subsets of the stored addresses (indices into
+	// Base.Addrs): pairs with a gap, every second chunk, random subsets
+	Subsets [][]int `json:"subsets,omitempty"`
+	// SubsetOnly: run only open + the subset reads (a crash of an earlier operation must not hide them)
+	SubsetOnly bool `json:"subset_only,omitempty"`
 }
 
 // OpRes is the observed outcome of one operation.
@@ -227,6 +232,28 @@ func runCase(dir string, c Case) Result {
 		if !opened {
 			return res
 		}
+		if c.SubsetOnly {
+			for si, sub := range c.Subsets {
+				var hs []hash.Hash
+				for _, ix := range sub {
+					if ix >= 0 && ix < len(c.Base.Addrs) {
+						hs = append(hs, query[ix])
+					}
+				}
+				hs = sortedByPrefix(hs)
+				add(guard("getmanysub", si, func(r *OpRes) {
+					got, _, _, err := src.GetMany(hs)
+					r.Items = itemsOf(got)
+					if err != nil {
+						errRes(r, err)
+						return
+					}
+					r.Class = "ok"
+				}))
+			}
+			guard("close", -1, func(r *OpRes) { src.Close() })
+			return res
+		}
 		for i, h := range query {
 			add(guard("has", i, func(r *OpRes) {
 				ok, err := src.Has(h)
@@ -276,6 +303,24 @@ func runCase(dir string, c Case) Result {
 			r.Class = "ok"
 			r.Items = itemsOf(got)
 		}))
+		for si, sub := range c.Subsets {
+			var hs []hash.Hash
+			for _, ix := range sub {
+				if ix >= 0 && ix < len(c.Base.Addrs) {
+					hs = append(hs, query[ix])
+				}
+			}
+			hs = sortedByPrefix(hs)
+			add(guard("getmanysub", si, func(r *OpRes) {
+				got, _, _, err := src.GetMany(hs)
+				r.Items = itemsOf(got)
+				if err != nil {
+					errRes(r, err)
+					return
+				}
+				r.Class = "ok"
+			}))
+		}
 		add(guard("iter", -1, func(r *OpRes) {
 			got, err := src.IterateAll()
 			r.Items = itemsOf(got)
@@ -444,12 +489,14 @@ func workerMain(dir string, capBytes uint64) {
 				ID    string   `json:"id"`
 				Mut   Mut      `json:"mut"`
 				Extra []string `json:"extra"`
+				Subs  [][]int  `json:"subsets"`
+				Only  bool     `json:"subset_only"`
 			}
 			if e := json.Unmarshal(line[5:], &rq); e != nil {
 				fmt.Fprintln(os.Stderr, "worker: bad case:", e)
 				os.Exit(3)
 			}
-			res := runCase(dir, Case{Base: bases[rq.ID], Mut: rq.Mut, Extra: rq.Extra})
+			res := runCase(dir, Case{Base: bases[rq.ID], Mut: rq.Mut, Extra: rq.Extra, Subsets: rq.Subs, SubsetOnly: rq.Only})
 			b, _ := json.Marshal(res)
 			out.Write(b)
 			out.WriteByte('\n')
